@@ -199,9 +199,13 @@ class StreamWorld(BaseWorld):
         self.saved_data = {}
         self.tasks = None
         self.fgroup_kind = {}
+        self.kind_cache = {}
         self.fgroup = {}      # name -> id of the group of streams expected to share flow data
         self.tgroup = {}      # ... expected to share temperature and pressure
         self.pgroup = {}      # ... expected to share the phase (single-phase streams)
+        self.iclass = {}      # streams that are one and the same indexer object (a proxy and its original)
+        self.vgroups = {}     # (flow group of the parent, phase) -> flow group of that phase row
+        self.vparent = {}     # row group id -> (parent group id, phase)
         self.ngroups = 0
         for spec in cfg['streams']:
             self._create(spec)
@@ -224,15 +228,39 @@ class StreamWorld(BaseWorld):
         self.fgroup[spec['name']] = self.new_group()
         self.tgroup[spec['name']] = self.new_group()
         self.pgroup[spec['name']] = self.new_group()
+        self.iclass[spec['name']] = self.new_group()
         return s
 
     def new_group(self):
         self.ngroups += 1
         return self.ngroups
 
+    def related_groups(self, gids):
+        """flow-group ids that cover (part of) the same data: a group, the per-phase row groups carved
+        out of it, and the group a row group was carved out of"""
+        S = set(gids)
+        changed = True
+        while changed:
+            changed = False
+            for vg, (pg, _ph) in self.vparent.items():
+                if vg in S and pg not in S:
+                    S.add(pg)
+                    changed = True
+                if pg in S and vg not in S:
+                    S.add(vg)
+                    changed = True
+        return S
+
     def group_size(self, name):
-        g = self.fgroup[name]
-        return sum(1 for v in self.fgroup.values() if v == g)
+        ids = self.related_groups({self.fgroup[name]})
+        return sum(1 for n, v in self.fgroup.items() if v in ids and n in self.streams)
+
+    def view_group(self, parent, phase):
+        key = (self.fgroup[parent], phase)
+        if key not in self.vgroups:
+            self.vgroups[key] = g = self.new_group()
+            self.vparent[g] = key
+        return self.vgroups[key]
 
     def new_name(self, prefix='n'):
         self.counter += 1
@@ -243,18 +271,15 @@ class StreamWorld(BaseWorld):
         self.streams[name] = s
         self.pkg_of[name] = pkg
         self.meta[name] = {'origin': origin, 'parent': parent}
-        if view_of is None and parent and self.meta[parent].get('view_of') and shares_flow:
-            if shares_tp:
-                view_of = self.meta[parent]['view_of']      # a proxy of a phase view is a phase view
-            else:
-                self.meta[name]['orphan'] = True            # flow proxy of a view: no sharing expectations kept
         if view_of:
-            self.meta[name]['view_of'] = view_of
-        if parent and self.meta[parent].get('orphan'):
-            self.meta[name]['orphan'] = True
+            self.meta[name]['view_of'] = view_of      # obtained as parent[phase]: follows the parent's data
         self.fgroup[name] = self.fgroup[parent] if (shares_flow and parent) else self.new_group()
+        if origin == 'view' and view_of and parent == view_of[0]:
+            self.fgroup[name] = self.view_group(parent, view_of[1])     # one phase row of the parent's data
         self.tgroup[name] = self.tgroup[parent] if (shares_tp and parent) else self.new_group()
         self.pgroup[name] = self.pgroup[parent] if (shares_phase and parent) else self.new_group()
+        self.iclass[name] = self.iclass[parent] if (origin in ('proxy',) or (origin == 'view' and shares_phase)) \
+            and parent else self.new_group()
         self.touched.add(name)
 
     def pk(self, name):
@@ -526,7 +551,7 @@ class StreamWorld(BaseWorld):
         S = self.streams
         if any(ev.get(k) not in S for k in ('stream',) if k in ev):
             return []
-        if op in ('set_phases', 'reduce_phases', 'as_stream', 'touch_solver', 'set_data'):
+        if op in ('set_phases', 'reduce_phases', 'as_stream', 'touch_solver', 'set_data', 'restore_data'):
             return [ev['stream']]
         if op == 'set_phase':
             return [ev['stream']] if self.is_multi(ev['stream']) else []
@@ -1043,8 +1068,12 @@ class StreamWorld(BaseWorld):
 
     def pre_copy_like(self, ev):
         a, b = ev['stream'], ev['other']
+        if self.prop == 'C13' and self.is_view_locked(a):
+            return False
         if a == b or self.is_view_locked(a) and self.is_multi(b):
             return False
+        if self.may_share(a, b):
+            return False      # copying a stream onto one that is (partly) the same data: not a copy
         return self.pkg_of[b] in universe.SUBPACKAGES[self.pkg_of[a]]
 
     def pre_link_with(self, ev):
@@ -1053,10 +1082,7 @@ class StreamWorld(BaseWorld):
             return False
         # a proxy and its original are one indexer object: re-linking one of them has no defined meaning
         # for "proxy shares all flow and thermal data" (flows would follow, T/P would not) - not generated
-        if self.meta[a]['origin'] == 'proxy' or any(
-                m['origin'] == 'proxy' and m.get('parent') == a and n in self.streams
-                and self.fgroup.get(n) == self.fgroup.get(a) and self.tgroup.get(n) == self.tgroup.get(a)
-                for n, m in self.meta.items()):
+        if sum(1 for v in self.iclass.values() if v == self.iclass[a]) > 1:
             return False
         if self.pkg_of[a] != self.pkg_of[b]:
             return False
@@ -1130,6 +1156,8 @@ class StreamWorld(BaseWorld):
             return False
         if self.is_view_locked(recv) and ev.get('conserve_phases'):
             return False
+        if self.prop == 'C13' and self.is_view_locked(recv):
+            return False      # a per-phase stream as the receiver of a whole-stream operation: not generated for C13
         return True
 
     def pre_sum(self, ev):
@@ -1260,13 +1288,14 @@ class StreamWorld(BaseWorld):
             failed = False
         fg0, tg0, pg0 = groups
         W = self.written(ev)
-        # closure of the written sets under the sharing that was in force BEFORE the operation
-        def closure(names, grp):
+        def closure(names, grp, rows=False):
             ids = {grp[n] for n in names if n in grp}
+            if rows:
+                ids = self.related_groups(ids)
             return {n for n, g in grp.items() if g in ids}
-        Wf, Wt, Wp = closure(W['f'], fg0), closure(W['t'], tg0), closure(W['p'], pg0)
+        Wf, Wt, Wp = closure(W['f'], fg0, True), closure(W['t'], tg0), closure(W['p'], pg0)
         for n, before in snap.items():
-            if n not in self.streams or self.meta[n].get('orphan'):
+            if n not in self.streams:
                 continue
             now = self.project(n)
             if n not in Wf and not self.same_proj(before, now, flows=True, tp=False, phase=False):
@@ -1281,7 +1310,7 @@ class StreamWorld(BaseWorld):
         if failed:
             return
         # what is advertised as shared must be equal now
-        names = [n for n in sorted(self.streams) if not self.meta[n].get('orphan')]
+        names = sorted(self.streams)
         proj = {n: self.project(n) for n in names}
         for i, a in enumerate(names):
             for b in names[i + 1:]:
@@ -1289,18 +1318,20 @@ class StreamWorld(BaseWorld):
                 if self.tgroup[a] == self.tgroup[b] and (pa.T != pb.T or pa.P != pb.P):
                     self.fail('shared-TP-differs', f'{a} and {b} share temperature and pressure but read '
                               f'({pa.T},{pa.P}) and ({pb.T},{pb.P})', {'event': ev})
-                if self.fgroup[a] == self.fgroup[b]:
-                    va, vb = self.meta[a].get('view_of'), self.meta[b].get('view_of')
-                    if va and not vb and va[0] == b:
-                        ok = va[1] in pb.rows and close(pa.rows[pa.phases[0]], pb.rows[va[1]])
-                    elif vb and not va and vb[0] == a:
-                        ok = vb[1] in pa.rows and close(pb.rows[pb.phases[0]], pa.rows[vb[1]])
-                    elif va or vb:
-                        continue
-                    elif pa.kind == pb.kind and (pa.kind == 'single' or tuple(pa.phases) == tuple(pb.phases)):
+                ok = None
+                ga, gb = self.fgroup[a], self.fgroup[b]
+                if ga == gb:
+                    if pa.kind == pb.kind and (pa.kind == 'single' or tuple(pa.phases) == tuple(pb.phases)):
                         ok = all(close(x, y) for x, y in zip(pa.rows.values(), pb.rows.values()))
-                    else:
-                        continue
+                elif ga in self.vparent and self.vparent[ga][0] == gb and pa.kind == 'single' and pb.kind == 'multi':
+                    ph = self.vparent[ga][1]
+                    if ph in pb.rows:
+                        ok = close(pa.rows[pa.phases[0]], pb.rows[ph])
+                elif gb in self.vparent and self.vparent[gb][0] == ga and pb.kind == 'single' and pa.kind == 'multi':
+                    ph = self.vparent[gb][1]
+                    if ph in pa.rows:
+                        ok = close(pb.rows[pb.phases[0]], pa.rows[ph])
+                if ok is not None:
                     if not ok:
                         self.fail('shared-flow-differs', f'{a} and {b} share flow data but their flows differ',
                                   {'event': ev, a: pa.to_json(), b: pb.to_json()})
@@ -1329,6 +1360,14 @@ class StreamWorld(BaseWorld):
 
     def after_step(self, ev):
         """Invariants that hold 'at every moment' for the property under check."""
+        # a stream that changed between single- and multi-phase form got a new indexer: it no longer
+        # shares a phase container / indexer object with anyone
+        for n in list(self.streams):
+            k = self.is_multi(n)
+            if self.kind_cache.get(n, k) != k:
+                self.pgroup[n] = self.new_group()
+                self.iclass[n] = self.new_group()
+            self.kind_cache[n] = k
         if self.prop == 'C11':
             for name in sorted(self.touched):
                 if name in self.streams:
@@ -2136,8 +2175,8 @@ class StreamWorld(BaseWorld):
     def views_follow(self, a):
         """per-phase streams of `a` are views of a's CURRENT data and thermal condition"""
         for n, m in self.meta.items():
-            if m.get('view_of') and m['view_of'][0] == a and not m.get('orphan'):
-                self.fgroup[n] = self.fgroup[a]
+            if m.get('view_of') and m['view_of'][0] == a and not m.get('detached') and n in self.streams:
+                self.fgroup[n] = self.view_group(a, m['view_of'][1])
                 self.tgroup[n] = self.tgroup[a]
 
     def do_unlink(self, ev):
@@ -2151,6 +2190,7 @@ class StreamWorld(BaseWorld):
         self.fgroup[a] = self.new_group()
         self.tgroup[a] = self.new_group()
         self.pgroup[a] = self.new_group()
+        self.iclass[a] = self.new_group()
         self.views_follow(a)
         if self.prop == 'C13':
             after = self.project(a)
@@ -2510,9 +2550,10 @@ class StreamWorld(BaseWorld):
         self.fgroup[a] = self.new_group()
         self.tgroup[a] = self.new_group()
         self.pgroup[a] = self.new_group()
+        self.iclass[a] = self.new_group()
         for n, m in self.meta.items():
             if m.get('view_of') and m['view_of'][0] == a:
-                m['orphan'] = True      # a view of the object that was replaced
+                m['detached'] = True    # a view of the object that was replaced: keeps sharing the OLD data
         if self.meta[a]['origin'] != 'initial':
             self.meta[a] = {'origin': 'restart'}
         self.touch(a)
